@@ -1,15 +1,15 @@
-\* thorough tier: as the quick configuration with scripts of 8 calls
+\* thorough tier: as the quick configuration with scripts of 9 calls (second tenure reachable)
 SPECIFICATION Spec
 CONSTANTS
   Candidate = TRUE
   LocalInit = "A"
   TTL = 300
-  MaxCalls = 8
+  MaxCalls = 9
   MaxStim = 1
   Stim = {"demote", "ho1", "ho1x", "ho9"}
   StimAnywhere = FALSE
   Focus = "all"
-  AllowMute = FALSE
+  Mute = "never"
   CheckAfterAcquire = FALSE
   Mut = "none"
   Emit = "edge"
